@@ -2104,7 +2104,9 @@ class SourceCatalog:
         if self._error is None:
             err = self._null_values
         else:
-            err = np.sqrt(np.array([np.sum(arr**2)
+            # square as float: an integer error array would overflow
+            # in its own dtype
+            err = np.sqrt(np.array([np.sum(arr.astype(float)**2)
                                     for arr in self._error_values]))
 
         if self._data_unit is not None:
@@ -3348,7 +3350,10 @@ class SourceCatalog:
                 if error is None:
                     fluxerr_ = np.nan
                 else:
-                    values = (aperture_weights * error**2)[pixel_mask]
+                    # square as float: an integer error array would
+                    # overflow in its own dtype
+                    values = (aperture_weights
+                              * error.astype(float)**2)[pixel_mask]
                     if values.shape == (0,):
                         fluxerr_ = np.nan
                     else:
